@@ -201,6 +201,20 @@ func (E *Engine) literalMapFact(x *Exec, globalKey string, mt *types.Map, val Va
 	return Implies(present, Or(alts...))
 }
 
+// literalMapKeyFact: membership in a never-updated literal map with string keys
+// is equality with one of its keys (only for small maps).
+func (E *Engine) literalMapKeyFact(x *Exec, st *State, globalKey string, key Val, present *Term) *Term {
+	rows, ok := E.literalRows(globalKey)
+	if !ok || len(rows) > 8 {
+		return nil
+	}
+	var alts []*Term
+	for _, r := range rows {
+		alts = append(alts, x.strEq(st, key, E.stringConst(x, r.Key, types.Typ[types.String])))
+	}
+	return Eq(present, Or(alts...))
+}
+
 // VerifyRows generates one obligation per (row, clause).
 func (E *Engine) VerifyRows() {
 	for _, cf := range E.files {
